@@ -1,5 +1,6 @@
 import Syzgy.Lemmas.Scan
 import Syzgy.Lemmas.Refine
+import Syzgy.Lemmas.Reopen
 /-!
 # C02 — durability across close / reopen
 -/
@@ -45,5 +46,31 @@ theorem reopen_after_any_history (ops : List Op) (s : SF) (segs : List Seg) (h :
   obtain ⟨segs', h1, h2⟩ := run_refines ops s segs h hf
   obtain ⟨s', h3, h4, h5⟩ := reopen_refines _ segs' h1 ro
   exact ⟨segs', s', h1, h3, h4, h5, h2⟩
+
+
+/-- **Close and reopen a collection after any history of document operations.** For every sequence of
+    `AddDocument` / `UpdateDocument` / `removeDocument` from a collection that satisfies the invariant,
+    `NewCollection` on the resulting file — in every mode that keeps the file, with any caller options,
+    given that the header record decodes to the creation options (the `encoding/json` oracle) —
+    succeeds (the index rebuild reads every record without failing), changes no byte, keeps the
+    creation options, and the reopened collection answers `GetDocument` and `GetAllIDs` exactly as the
+    specification says: every document added and not removed since is there with its last metadata and
+    vector codes, no removed document comes back. -/
+theorem reopen_collection_after_any_history (ops : List DocOp) (c : Coll) (segs : List Seg) (docs : DocStore)
+    (h : CRep2 c segs docs) (hf : DocFitsAll2 c docs ops) (name : Bytes) (opts : Cfg) (mode : FileMode)
+    (hmode : mode ≠ .createAndOverwrite) (dec : Bytes → Cfg → Option Cfg) (s0 : Stream) (more : List Stream)
+    (hh : docOf [] segs = some (s0 :: more)) (hdec : dec s0.data opts = some c.cfg)
+    (hmetric : c.cfg.metric = 0 ∨ c.cfg.metric = 1) :
+    ∃ c', newCollection (some (ops.foldl applyDocOp c).sf.file) name opts mode dec = .ok c' ∧ c'.cfg = c.cfg ∧
+      c'.sf.file = (ops.foldl applyDocOp c).sf.file ∧
+      (∀ id, getDocument c' id = match ops.foldl docSpec docs id with
+        | none => .err "record not found"
+        | some d => .ok d) ∧
+      (∀ id, id ∈ getAllIDs c' ↔ ops.foldl docSpec docs id ≠ none) :=
+  reopen_after_doc_history ops c segs docs h hf name opts mode hmode dec s0 more hh hdec hmetric
+
+/-- the index rebuild at open never fails on a collection that satisfies the invariant -/
+theorem rebuild_never_fails (c : Coll) (segs : List Seg) (docs : DocStore) (h : CRep2 c segs docs) :
+    rebuildCheck c.sf c.cfg = .ok () := rebuildCheck_ok c segs docs h
 
 end Syzgy.C02
